@@ -16,6 +16,7 @@ LOG=$DST/confirm.log; : > $LOG
 say() { echo "$@" | tee -a $LOG; }
 clean() { git -C $WT checkout -q -- . ; git -C $WT clean -fdq -e out; }
 clean
+git -C $WT checkout -q --detach $(git -C /repo rev-parse HEAD)
 PKG=""
 if [ -f $SRC/demo_test.go ]; then
   PKG=$(head -5 $SRC/demo_test.go | grep -m1 -oE '^// *dir: *[A-Za-z0-9_/.]+' | sed 's#^// *dir: *##; s#/$##')
